@@ -40,6 +40,11 @@ pub fn spaces(tier: &str) -> Vec<CSpace> {
         gen: Box::new(move |ctx| gen_enum(ctx, &FOpts { max_members: if quick { 2 } else { 3 }, two_counterparts: true, force_two: false, full_menu: true, params: true })),
         bound: if quick { Some(4) } else { Some(6) },
     });
+    let k = if quick { 1 } else { 2 };
+    v.push(CSpace { name: "names-member".into(), gen: Box::new(move |ctx| crate::names::gen_member(ctx, 2)), bound: if quick { Some(4) } else { None } });
+    v.push(CSpace { name: "names-variant".into(), gen: Box::new(move |ctx| crate::names::gen_variant(ctx, k + 1)), bound: if quick { Some(3) } else { Some(7) } });
+    v.push(CSpace { name: "names-type".into(), gen: Box::new(move |ctx| crate::names::gen_type(ctx, 2)), bound: if quick { Some(4) } else { None } });
+    v.push(CSpace { name: "names-parent".into(), gen: Box::new(move |ctx| crate::names::gen_parent(ctx, 2)), bound: if quick { Some(5) } else { None } });
     v.push(CSpace { name: "feat-enum-prim".into(), gen: Box::new(|ctx| gen_enum_prim(ctx, &FOpts { max_members: 3, two_counterparts: false, force_two: false, full_menu: true, params: false })), bound: None });
     v
 }
